@@ -3,6 +3,7 @@
 # run the registered quick checks of the given properties against it (evidence/replays go to /tmp), clean up.
 set -uo pipefail
 CHANGE="$1"; shift
+HERE="$(cd "$(dirname "$0")/.." && pwd)"      # the copy of /verif this script belongs to (a vp-run snapshot stays self-contained)
 W=/tmp/mcwt.$$; B=/tmp/mcbuild.$$; O=/tmp/mcout.$$
 git -C /repo worktree add -q "$W" HEAD
 trap 'git -C /repo worktree remove --force "$W" >/dev/null 2>&1; rm -rf "$B" "$O"' EXIT
@@ -12,5 +13,5 @@ case "$CHANGE" in
 esac
 mkdir -p "$O"
 for P in "$@"; do
-  REPO="$W" VERIF_BUILD_ROOT="$B" VERIF_OUT_ROOT="$O" python3 /verif/checks/run.py check "$P" --tier quick 2>&1 | grep -a 'VIOLATION\|KNOWN-FINDING\|MACHINERY\|tier=' | cut -c1-330
+  REPO="$W" VERIF_BUILD_ROOT="$B" VERIF_OUT_ROOT="$O" VERIF_WALL_FACTOR="${VERIF_WALL_FACTOR:-4}" python3 "$HERE/checks/run.py" check "$P" --tier quick 2>&1 | grep -a 'VIOLATION\|KNOWN-FINDING\|MACHINERY\|tier=' | cut -c1-330
 done
